@@ -3,7 +3,7 @@ import random
 from ..framework import Check
 from .. import mgr_check, mgr_common as C
 
-THEOREMS = ["C03_total", "C03_total_ex", "C03_fuel_bound", "C03_rank_le_2", "C03_never_crashes", "C03_reachable_invariant", "C03_bad_length_only_offender", "C03_bad_size_range",
+THEOREMS = ["C03_total", "C03_total_ex", "C03_refuted_for_any_fixed_budget", "C03_cascade_window", "C03_fuel_bound", "C03_rank_le_2", "C03_never_crashes", "C03_reachable_invariant", "C03_bad_length_only_offender", "C03_bad_size_range",
             "C03_ex_survives"]
 CHECKERS = ["C03"]
 
